@@ -35,3 +35,10 @@ impl<I: Iterator + Sized> Itertools for I {
 pub broadcast axiom fn axiom_range_inclusive_isize_empty(r: std::ops::RangeInclusive<isize>)
     requires r@.start > r@.end,
     ensures #[trigger] r.remaining().len() == 0;
+
+// ASSUMED (std docs): `RangeInclusive::start()` / `end()` return the lower / upper bound the range was built with
+// (`r@` is vstd's view of an inclusive range: its `start`, `end` and `exhausted` fields).
+pub assume_specification<Idx>[ std::ops::RangeInclusive::<Idx>::end ](r: &std::ops::RangeInclusive<Idx>) -> (e: &Idx)
+    ensures *e == r@.end;
+pub assume_specification<Idx>[ std::ops::RangeInclusive::<Idx>::start ](r: &std::ops::RangeInclusive<Idx>) -> (s: &Idx)
+    ensures *s == r@.start;
